@@ -46,7 +46,14 @@ def render(rng, kind, x, faithful=True):
             labels = labels[k:]
     used_states = set([x['q0']] + list(x.get('F', [])) + [s for p, a, q in trs for s in (p, q)])
     decl = []
-    if not (set(x['Q']) <= used_states and rng.random() < 0.4 and kind != 'tm'):
+    states_declared = True
+    if kind == 'tm':
+        # without a `states` line the states are the used ones plus the two halting states
+        if set(x['Q']) == (set([s for p, a, q in trs for s in (p, q)]) | {x['qa'], x['qr']}) and x['q0'] in x['Q'] and rng.random() < 0.5:
+            states_declared = False
+    elif set(x['Q']) <= used_states and rng.random() < 0.4:
+        states_declared = False
+    if states_declared:
         qs = list(x['Q'])
         rng.shuffle(qs)
         decl.append('states ' + ' '.join(qs))
@@ -57,8 +64,11 @@ def render(rng, kind, x, faithful=True):
             rng.shuffle(fs)
             decl.append('final ' + ' '.join(fs))
     else:
-        decl.append('accept ' + x['qa'])
-        decl.append('reject ' + x['qr'])
+        # the accept / reject lines are optional: the defaults are the names `accept` / `reject` (when no declared state has that name)
+        if not (x['qa'] == 'accept' and not states_declared and rng.random() < 0.6):
+            decl.append('accept ' + x['qa'])
+        if not (x['qr'] == 'reject' and not states_declared and rng.random() < 0.6):
+            decl.append('reject ' + x['qr'])
     if kind in ('dfa', 'nfa'):
         used = set(a for p, a, q in trs if a != eps)
         if not (set(x['Sigma']) == used and rng.random() < 0.5):
@@ -149,7 +159,11 @@ def random_obj(rng, kind):
     blank = rng.choice(['_', '□'])
     sigma = rng.choice([['a'], ['a', 'b'], []])
     gamma = sorted(set(sigma + [blank] + (['x'] if rng.random() < 0.5 else []) + (rng.choice([['%'], ['$', '%'], ['#'], ['~', '!']]) if rng.random() < 0.4 else [])))
-    Qa = Q + ['acc', 'rej']
+    halt = rng.choice([['acc', 'rej'], ['accept', 'reject'], ['accept', 'rej'], ['acc', 'reject']])    # 'accept' / 'reject' are the documented default names
+    halt = [h for h in halt]
+    if any(h in Q for h in halt):
+        halt = ['acc', 'rej']
+    Qa = Q + halt
     delta, seen = [], set()
     for _ in range(rng.randint(0, 8)):
         p, a = rng.choice(Q), rng.choice(gamma)
@@ -157,7 +171,7 @@ def random_obj(rng, kind):
             continue
         seen.add((p, a))
         delta.append([p, a, rng.choice(Qa), rng.choice(gamma), rng.choice('LR')])
-    return {'Q': Qa, 'Sigma': sigma, 'Gamma': gamma, 'delta': delta, 'q0': Q[0], 'qa': 'acc', 'qr': 'rej', 'blank': blank}
+    return {'Q': Qa, 'Sigma': sigma, 'Gamma': gamma, 'delta': delta, 'q0': Q[0], 'qa': halt[0], 'qr': halt[1], 'blank': blank}
 
 
 def gen(rng, tier):
